@@ -21,7 +21,12 @@ RULE = ("Hypothesis draws sample sets over d 2..4(5) modes with 1..4(5) index va
         "recomputation (math.fsum) of the mean, conditional means and pair terms, the noise-free core pattern built from it and "
         "the rigorous multilinear noise majorant. Functional variant: points in a box (uniform, on the boundary, duplicated), n 2..6(8), "
         "lamb 10^[-8,1], e in {None, default, 1e-8, 1e-4, 1e-2}; oracle = augmented least-squares ridge solve + own Chebyshev basis. "
-        "Non-trivial = (sparse data or duplicates) or r > 2 or order 2; functional: m >= 2 and non-constant y. Distinct by SHA-1.")
+        "Non-trivial = (sparse data or duplicates) or r > 2 or order 2; functional: m >= 2 and non-constant y. Distinct by SHA-1. "
+        "order2_wide: order 2 over d = 5, 6, 7 (mode sizes 2..3(4), at most one mode of size 1) and d = 10 (8, 9, 11 thorough; mode "
+        "size 2), i.e. 11..56 add_many summands so that the periodic roundings of the summation schedule are reached (also exactly "
+        "on the last summand: d = 6, 10), up to 250(400) samples, r in {2,3,4,5,8,50} (small r binds); the class's A(I) is evaluated "
+        "on a drawn sample of 300 multi-indices when the domain exceeds 600. History in both order-2 subs: the fitted object is "
+        "asked again for cores with another rank r2 in {2,3,4,8,50}: shape, rank bound r2, values (cap not binding), f0/f1 unchanged.")
 TOLERANCES = ("f0: 2(m+4) eps mean|y|; f1/f2: the same for the conditional mean + inherited terms; order 1: |dense - model| <= "
               "dense(|C0|+D) - dense(|C0|) + 2K eps dense(|C0|+D), D = 3*noise (40*noise for int seeds) on non-structural entries and the "
               "f-tolerances on structural ones, K = 32(d+sum r+max n); order 2 (no bond rank equal to the cap r): Frobenius error <= "
@@ -88,13 +93,16 @@ def mode_sizes(big):
 
 
 @st.composite
-def data_fields(draw, tier, layouts):
+def data_fields(draw, tier, layouts, n=None, m_hi=None, m_many=False):
     big = tier != "quick"
-    d = draw(st.integers(2, 5 if big else 4))
-    n = _cap([draw(mode_sizes(big)) for _ in range(d)], 1024 if big else 256)
+    if n is None:
+        d = draw(st.integers(2, 5 if big else 4))
+        n = _cap([draw(mode_sizes(big)) for _ in range(d)], 1024 if big else 256)
+    if m_hi is None:
+        m_hi = 60 if big else 30
     lay = draw(st.sampled_from(layouts))
     case = {"n": n, "layout": lay, "dseed": draw(gen.seeds), "shuffle": draw(st.booleans()),
-            "m": draw(st.one_of(st.integers(1, 5), st.integers(6, 60 if big else 30), st.integers(6, 60 if big else 30))),
+            "m": draw(st.one_of(*([st.integers(1, 5)] + [st.integers(6, m_hi)] * (5 if m_many else 2)))),
             "rep": draw(st.integers(2, 3)),
             "as_list": draw(st.integers(0, 3)) == 0}
     lk = draw(st.sampled_from(["affine", "affine", "identity", "drawn", "drawn"]))
@@ -274,10 +282,30 @@ def check_f01(ctx, A, ref):
                       k=k, x=x, got=got, ref=float(ref["f1"][k][j]), tol=float(ref["t1"][k][j]))
 
 
-def check_call(ctx, A, ref, as_list):
-    """The class's own model A(I) at every multi-index of the observed domain against the recomputed table."""
+CALL_FULL = 600          # domains with more multi-indices than this are evaluated through the class on a drawn sample only
+
+
+def check_call(ctx, A, ref, as_list, sample_seed=0):
+    """The class's own model A(I) at every multi-index of the observed domain against the recomputed table (a sample of
+    CALL_FULL//2 multi-indices, drawn without replacement, when the domain is large; then None is returned)."""
     dom = ref["dom"]
     allI = np.array(list(itertools.product(*dom)), dtype=int)
+    if len(allI) > CALL_FULL:
+        pick = np.sort(np.random.default_rng(sample_seed).choice(len(allI), size=CALL_FULL // 2, replace=False))
+        pick[0] = 0
+        Is = allI[pick]
+        got = np.asarray(ctx.lib(A, Is.tolist() if as_list else Is), dtype=float)
+        ctx.inner(len(Is))
+        refv = ref["M"].ravel()[pick]; tol = ref["tolM"].ravel()[pick]
+        ctx.check(got.shape == refv.shape, "ANOVA(I) does not return one value per multi-index", got=got.shape)
+        if np.any(np.abs(got - refv) > tol) or not np.all(np.isfinite(got)):
+            j = int(np.argmax(np.abs(got - refv) - tol))
+            ctx.check(False, "ANOVA(I) differs from the recomputed model (constant + per-mode terms + pair terms)",
+                      index=Is[j].tolist(), got=float(got[j]), ref=float(refv[j]), tol=float(tol[j]))
+        one = ctx.lib(A, allI[0])
+        ctx.check(np.ndim(one) == 0 and abs(float(one) - ref["M"].ravel()[0]) <= ref["tolM"].ravel()[0],
+                  "ANOVA(single index) differs from the model", got=repr(one))
+        return None
     got = ctx.lib(A, allI.tolist() if as_list else allI)
     got = np.asarray(got, dtype=float).reshape(ref["n"])
     ctx.inner(len(allI))
@@ -405,6 +433,31 @@ def prop_order1(case, ctx):
 def order2_cases(draw, tier):
     case = draw(data_fields(tier, LAYOUTS))
     case.update(draw(call_fields(2)))
+    case["r2"] = draw(st.sampled_from(R2_CHOICES))
+    return case
+
+
+R2_CHOICES = [2, 2, 3, 4, 8, 50]
+WIDE_LAYOUTS = ["grid", "grid_rep", "grid_plus", "sparse", "sparse", "sparse", "sparse", "dups", "dups", "explicit"]
+
+
+@st.composite
+def wide_cases(draw, tier):
+    """Order 2 over many modes: the cores are the add_many sum of 1 + d(d-1)/2 summands (11, 16, 22, .., 46, 56), so the
+    intermediate roundings of the summation schedule (every 15 additions) are reached, also exactly at the last summand
+    (d = 6, 10).  Mode sizes stay at 1..3 (d <= 7) and 1..2 (d >= 8) so that the dense reference stays small."""
+    big = tier != "quick"
+    d = draw(st.sampled_from([5, 6, 6, 7, 10, 10] + ([8, 9, 11] if big else [])))
+    if d <= 7:
+        n = _cap([draw(st.sampled_from([2, 2, 3, 3] + ([4] if big else []))) for _ in range(d)], 2187 if big else 768)
+    else:
+        n = [2] * d
+    if draw(st.integers(0, 4)) == 0:                 # at most one mode with a single index value (bond ranks 1 around it)
+        n[draw(st.integers(0, d - 1))] = 1
+    case = draw(data_fields(tier, WIDE_LAYOUTS, n=n, m_hi=400 if big else 250, m_many=True))
+    case.update(draw(call_fields(2)))
+    case["r"] = draw(st.sampled_from([2, 2, 3, 3, 4, 5, 8, 50, 50]))
+    case["r2"] = draw(st.sampled_from(R2_CHOICES))
     return case
 
 
@@ -437,6 +490,21 @@ def order2_bounds(ref, r, bn):
     return pre, Efin
 
 
+def order2_values(ctx, Y, ref, r, bn, own, what, **kw):
+    """Value oracle of the order-2 route for a result whose rank cap does not bind; returns (dense, pre, Efin)."""
+    pre, Efin = order2_bounds(ref, r, bn)
+    F = dense(Y)
+    err = fro(F - ref["M"])
+    bound = fro(pre + ref["tolM"]) + Efin
+    ctx.check(np.all(np.isfinite(F)) and err <= bound,
+              f"{what} (rank cap not binding): dense tensor differs from constant + per-mode + pair terms beyond the derived bound",
+              err=err, bound=bound, ranks=oracle.ranks_of(Y), r=r, norm=fro(ref["M"]), **kw)
+    if own is not None:
+        err = fro(F - own)
+        ctx.check(err <= bound + fro(ref["tolM"]), f"{what}: dense tensor differs from the class's own model A(I)", err=err, bound=bound, **kw)
+    return F, pre, Efin
+
+
 def prop_order2(case, ctx):
     I, y, J = make_data(case)
     ref = ref_model(I, y, 2)
@@ -444,38 +512,48 @@ def prop_order2(case, ctx):
     d = len(n)
     r = case["r"]
     data_labels(ctx, case, ref, I)
+    ctx.label(f"summands={1 + d * (d - 1) // 2}")
     ctx.nontrivial(True)
 
     Y, A, noise, B = run_anova(ctx, case, I, y, 2)
     check_f01(ctx, A, ref)
-    own = check_call(ctx, A, ref, case["as_list"])
+    own = check_call(ctx, A, ref, case["as_list"], case["dseed"])
 
     why = oracle.wellformed(Y, n)
     ctx.check(why is None, f"anova(order=2): result is not a well-formed TT-tensor with the observed mode sizes: {why}", observed=n)
     ranks = oracle.ranks_of(Y)
-    ctx.check(max(ranks) <= r, "anova(order=2): a TT-rank exceeds the requested rank", ranks=ranks, r=r)
+    ctx.check(max(ranks) <= r, "anova(order=2): a TT-rank exceeds the requested rank", ranks=ranks, r=r, d=d)
     binds = any(q == r for q in ranks[1:-1])
     if binds:
         ctx.label("cap_binds")
+    else:
+        ctx.label("values_checked")
+        F, pre, Efin = order2_values(ctx, Y, ref, r, B * noise, own, "anova(order=2)", noise=noise)
+        if d == 2:
+            c = ref["cells"][0, 1]
+            obs = ~np.isnan(c)
+            tol = pre + ref["tolM"] + Efin
+            badv = np.abs(F - np.where(obs, c, 0.0))[obs] - tol[obs]
+            ctx.check(not np.any(badv > 0), "anova(order=2, d=2): an observed cell is not reproduced by its sample mean", worst=float(badv.max()))
+            if obs.all():
+                ctx.label("d2_full_grid_reproduced")
+
+    # the fitted object asked again for cores with another rank: the rank statement and the encoded model hold for every
+    # call (only the noise draws differ; they stay inside the same majorant), and the fitted terms are left as they were
+    r2 = case.get("r2")
+    if r2 is None or case["route"] == "class_rel":
         return
-    ctx.label("values_checked")
-    pre, Efin = order2_bounds(ref, r, B * noise)
-    F = dense(Y)
-    err = fro(F - ref["M"])
-    bound = fro(pre + ref["tolM"]) + Efin
-    ctx.check(np.all(np.isfinite(F)) and err <= bound,
-              "anova(order=2, rank cap not binding): dense tensor differs from constant + per-mode + pair terms beyond the derived bound",
-              err=err, bound=bound, ranks=ranks, r=r, noise=noise, norm=fro(ref["M"]))
-    err = fro(F - own)
-    ctx.check(err <= bound + fro(ref["tolM"]), "anova(order=2): dense tensor differs from the class's own model A(I)", err=err, bound=bound)
-    if d == 2:
-        c = ref["cells"][0, 1]
-        obs = ~np.isnan(c)
-        tol = pre + ref["tolM"] + Efin
-        badv = np.abs(F - np.where(obs, c, 0.0))[obs] - tol[obs]
-        ctx.check(not np.any(badv > 0), "anova(order=2, d=2): an observed cell is not reproduced by its sample mean", worst=float(badv.max()))
-        if obs.all():
-            ctx.label("d2_full_grid_reproduced")
+    Y2 = ctx.lib(A.cores, r2, noise)
+    why = oracle.wellformed(Y2, n)
+    ctx.check(why is None, f"ANOVA.cores (order 2) called again with another rank: malformed result: {why}", observed=n, r=r2)
+    ranks2 = oracle.ranks_of(Y2)
+    ctx.check(max(ranks2) <= r2, "ANOVA.cores (order 2) called again: a TT-rank exceeds the requested rank", ranks=ranks2, r=r2, first_r=r, d=d)
+    if any(q == r2 for q in ranks2[1:-1]):
+        ctx.label("second_call_cap_binds")
+    else:
+        ctx.label("second_call_values_checked")
+        order2_values(ctx, Y2, ref, r2, B * noise, own, "ANOVA.cores (order 2) called again", noise=noise, first_r=r)
+    check_f01(ctx, A, ref)
 
 
 # ------------------------------------------------------------------------------------------- additive function on a full grid
@@ -765,6 +843,7 @@ def prop_func(case, ctx):
 SUBCHECKS = [
     Sub("order1", prop_order1, strategy=order1_cases, quick=300, thorough=6000),
     Sub("order2", prop_order2, strategy=order2_cases, quick=250, thorough=5000),
+    Sub("order2_wide", prop_order2, strategy=wide_cases, quick=100, thorough=600),
     Sub("additive", prop_additive, strategy=additive_cases, quick=150, thorough=3000),
     Sub("func", prop_func, strategy=func_cases, quick=200, thorough=4000),
 ]
